@@ -41,15 +41,31 @@ import (
 // panics, and goroutines of refinery packages still alive after the stop.
 
 type c36Server struct {
-	mu  sync.Mutex
-	ids map[int]int
-	srv *httptest.Server
+	mu       sync.Mutex
+	ids      map[int]int
+	srv      *httptest.Server
+	throttle bool                 // rate-limit every batch: 429 + Retry-After 1 s until that second has passed
+	first    map[string]time.Time // (fake) time of the first attempt per batch body
+	now      func() time.Time
 }
 
 func newC36Server() *c36Server {
-	s := &c36Server{ids: map[int]int{}}
+	s := &c36Server{ids: map[int]int{}, first: map[string]time.Time{}, now: time.Now}
 	s.srv = httptest.NewServer(http.HandlerFunc(func(w http.ResponseWriter, r *http.Request) {
 		body, _ := io.ReadAll(r.Body)
+		s.mu.Lock()
+		t0, seen := s.first[string(body)]
+		if !seen {
+			t0 = s.now()
+			s.first[string(body)] = t0
+		}
+		limited := s.throttle && s.now().Sub(t0) < time.Second // still inside the Retry-After window
+		s.mu.Unlock()
+		if limited {
+			w.Header().Set("Retry-After", "1")
+			w.WriteHeader(http.StatusTooManyRequests)
+			return
+		}
 		var js bytes.Buffer
 		var evs []map[string]any
 		if _, err := msgp.UnmarshalAsJSON(&js, body); err == nil {
@@ -75,19 +91,19 @@ func newC36Server() *c36Server {
 }
 
 type c36Harness struct {
-	h       *c01Harness // reused for trace-id selection and span construction
-	srv     *c36Server
-	tx      *transmit.DirectTransmission
-	txClock *clockwork.FakeClock
-	coll    *InMemCollector
-	clock   *clockwork.FakeClock
-	met     *metrics.MockMetrics
-	ev      *c01Events
-	phase   string
-	panicked bool
-	base    map[string]bool
+	h            *c01Harness // reused for trace-id selection and span construction
+	srv          *c36Server
+	tx           *transmit.DirectTransmission
+	txClock      *clockwork.FakeClock
+	coll         *InMemCollector
+	clock        *clockwork.FakeClock
+	met          *metrics.MockMetrics
+	ev           *c01Events
+	phase        string
+	panicked     bool
+	base         map[string]bool
 	added, ticks int
-	cleanup func()
+	cleanup      func()
 }
 
 var c36RefineryFrame = regexp.MustCompile(`github.com/honeycombio/refinery/(collect|transmit)[/.(]`)
@@ -146,6 +162,7 @@ func (s *c36Harness) Reset(init map[string]any) error {
 	s.met = &metrics.MockMetrics{}
 	s.met.Start()
 	s.clock, s.txClock = clockwork.NewFakeClock(), clockwork.NewFakeClock()
+	s.srv.now = s.txClock.Now
 	s.tx = transmit.NewDirectTransmission(types.TransmitTypeUpstream, http.DefaultTransport.(*http.Transport).Clone(), 500, time.Second, 10*time.Second, false, nil)
 	s.tx.Config, s.tx.Logger, s.tx.Metrics, s.tx.Version, s.tx.Clock = h.conf, &logger.NullLogger{}, s.met, "verif", s.txClock
 	if err := s.tx.Start(); err != nil {
@@ -254,7 +271,36 @@ func (s *c36Harness) Apply(a map[string]any) (err error) {
 		return s.coll.Stop()
 	case "StopTransmission":
 		s.phase = "stopped"
-		return s.tx.Stop()
+		s.srv.mu.Lock()
+		s.srv.throttle = verifkit.Bool(a, "throttled")
+		s.srv.mu.Unlock()
+		done := make(chan error, 1)
+		go func() {
+			defer func() {
+				if r := recover(); r != nil {
+					s.panicked = true
+					done <- nil
+				}
+			}()
+			done <- s.tx.Stop()
+		}()
+		// while Stop runs, let any retry back-off on the fake clock elapse
+		deadline := time.Now().Add(c01Timeout)
+		for {
+			select {
+			case err := <-done:
+				return err
+			default:
+			}
+			if time.Now().After(deadline) {
+				return fmt.Errorf("barrier timeout: transmission Stop")
+			}
+			ctx, cancel := context.WithTimeout(context.Background(), 20*time.Millisecond)
+			if s.txClock.BlockUntilContext(ctx, 1) == nil {
+				s.txClock.Advance(2 * time.Second)
+			}
+			cancel()
+		}
 	}
 	return fmt.Errorf("unknown action %v", a)
 }
